@@ -43,15 +43,43 @@ PairSource(i) ==
     [] sh = 4 -> <<R("x"), OP(oa), LP, R("y"), OP(ob), R("z"), RP>>
     [] sh = 5 -> <<LP, R("x"), OP(oa), R("y"), RP, OP(ob), R("z")>>
 
-\* triples over the representatives, 4 shapes
-TripleCount == NR * NR * NR * 4
+\* triples over the representatives, 6 shapes
+TripleCount == NR * NR * NR * 6
 TripleSource(i) ==
-  LET k == i - 1  sh == k % 4
-      oc == RepSeq[((k \div 4) % NR) + 1]  ob == RepSeq[((k \div (4 * NR)) % NR) + 1]  oa == RepSeq[(k \div (4 * NR * NR)) + 1] IN
+  LET k == i - 1  sh == k % 6
+      oc == RepSeq[((k \div 6) % NR) + 1]  ob == RepSeq[((k \div (6 * NR)) % NR) + 1]  oa == RepSeq[(k \div (6 * NR * NR)) + 1] IN
   CASE sh = 0 -> <<R("w"), OP(oa), R("x"), OP(ob), R("y"), OP(oc), R("z")>>
     [] sh = 1 -> <<R("w"), OP(oa), R("x"), NOTT, OP(ob), R("y"), OP(oc), R("z")>>
     [] sh = 2 -> <<R("w"), OP(oa), LP, R("x"), OP(ob), R("y"), RP, OP(oc), R("z")>>
     [] sh = 3 -> <<R("w"), OP(oa), R("x"), OP(ob), LP, R("y"), OP(oc), R("z"), RP>>
+    [] sh = 4 -> <<R("w"), OP(oa), R("x"), OP(ob), R("y"), NOTT, OP(oc), R("z")>>
+    [] sh = 5 -> <<R("w"), NOTT, OP(oa), R("x"), NOTT, OP(ob), R("y"), NOTT, OP(oc), R("z")>>
+
+\* chains of four and five operators over one operator per precedence level: precedence climbing that rises twice and falls
+\* back needs four operators to show a stale binding power, and one `not` at each position
+LevelSeq == SetSeq({CHOOSE o \in DOMAIN Table.infix : Table.infix[o][1] = p : p \in {Table.infix[o][1] : o \in DOMAIN Table.infix}})
+NL == Len(LevelSeq)
+QuadCount == NL * NL * NL * NL * 3
+QuadSource(i) ==
+  LET k == i - 1  sh == k % 3
+      od == LevelSeq[((k \div 3) % NL) + 1]  oc == LevelSeq[((k \div (3 * NL)) % NL) + 1]
+      ob == LevelSeq[((k \div (3 * NL * NL)) % NL) + 1]  oa == LevelSeq[(k \div (3 * NL * NL * NL)) + 1] IN
+  CASE sh = 0 -> <<R("v"), OP(oa), R("w"), OP(ob), R("x"), OP(oc), R("y"), OP(od), R("z")>>
+    [] sh = 1 -> <<R("v"), OP(oa), R("w"), OP(ob), R("x"), OP(oc), R("y"), NOTT, OP(od), R("z")>>
+    [] sh = 2 -> <<R("v"), OP(oa), R("w"), OP(ob), R("x"), NOTT, OP(oc), R("y"), OP(od), R("z")>>
+QuadSet == 1..QuadCount
+\* five operators over every second level
+EveryOther(s) == [j \in 1..((Len(s) + 1) \div 2) |-> s[2 * j - 1]]
+QSeq == EveryOther(LevelSeq)
+NQ == Len(QSeq)
+QuintCount == NQ * NQ * NQ * NQ * NQ * 2
+QuintSource(i) ==
+  LET k == i - 1  sh == k % 2
+      oe == QSeq[((k \div 2) % NQ) + 1]  od == QSeq[((k \div (2 * NQ)) % NQ) + 1]  oc == QSeq[((k \div (2 * NQ * NQ)) % NQ) + 1]
+      ob == QSeq[((k \div (2 * NQ * NQ * NQ)) % NQ) + 1]  oa == QSeq[(k \div (2 * NQ * NQ * NQ * NQ)) + 1] IN
+  CASE sh = 0 -> <<R("u"), OP(oa), R("v"), OP(ob), R("w"), OP(oc), R("x"), OP(od), R("y"), OP(oe), R("z")>>
+    [] sh = 1 -> <<R("u"), OP(oa), R("v"), OP(ob), LP, R("w"), OP(oc), R("x"), RP, OP(od), R("y"), NOTT, OP(oe), R("z")>>
+QuintSet == 1..QuintCount
 
 \* decorations over pairs of representatives
 NDecor == 14
